@@ -25,6 +25,7 @@ use std::hash::Hash;
 use crate::codec::SketchBytes;
 use crate::codec::SketchSlice;
 use crate::codec::assert::ensure_preamble_longs_in_range;
+use crate::codec::assert::ensure_remaining;
 use crate::codec::assert::insufficient_data;
 use crate::codec::family::Family;
 use crate::common::NumStdDev;
@@ -592,6 +593,12 @@ impl CompactThetaSketch {
         num_entries: usize,
         theta: u64,
     ) -> Result<Vec<u64>, Error> {
+        if theta == 0 || theta > MAX_THETA {
+            return Err(Error::deserial(format!(
+                "corrupted: theta must be in [1, {MAX_THETA}], got {theta}"
+            )));
+        }
+        ensure_remaining(cursor, num_entries, 8, "entries")?;
         let mut entries = Vec::with_capacity(num_entries);
         for _ in 0..num_entries {
             let hash = cursor.read_u64_le().map_err(insufficient_data("entries"))?;
@@ -601,6 +608,17 @@ impl CompactThetaSketch {
             entries.push(hash);
         }
         Ok(entries)
+    }
+
+    /// An image that claims to be ordered must hold strictly increasing entries.
+    fn ensure_ordered(entries: &[u64]) -> Result<(), Error> {
+        if entries.windows(2).all(|w| w[0] < w[1]) {
+            Ok(())
+        } else {
+            Err(Error::deserial(
+                "corrupted: ordered sketch with entries that are not strictly increasing",
+            ))
+        }
     }
 
     fn deserialize_v1(mut cursor: SketchSlice<'_>, expected_seed: u64) -> Result<Self, Error> {
@@ -631,6 +649,7 @@ impl CompactThetaSketch {
         }
 
         let entries = Self::read_entries(&mut cursor, num_entries, theta)?;
+        Self::ensure_ordered(&entries)?;
 
         Ok(Self {
             entries,
@@ -677,6 +696,7 @@ impl CompactThetaSketch {
                     .read_u32_le()
                     .map_err(insufficient_data("<unused_u32>"))?;
                 let entries = Self::read_entries(&mut cursor, num_entries, MAX_THETA)?;
+                Self::ensure_ordered(&entries)?;
                 Ok(Self {
                     entries,
                     theta: MAX_THETA,
@@ -698,6 +718,7 @@ impl CompactThetaSketch {
                     .map_err(insufficient_data("theta_long"))?;
                 let empty = (num_entries == 0) && (theta == MAX_THETA);
                 let entries = Self::read_entries(&mut cursor, num_entries, theta)?;
+                Self::ensure_ordered(&entries)?;
                 Ok(Self {
                     entries,
                     theta,
@@ -752,6 +773,9 @@ impl CompactThetaSketch {
             entries = Self::read_entries(&mut cursor, num_entries as usize, theta)?;
         }
         let ordered = (flags & serialization::FLAGS_IS_ORDERED) != 0;
+        if ordered {
+            Self::ensure_ordered(&entries)?;
+        }
         Ok(Self {
             entries,
             theta,
@@ -798,6 +822,27 @@ impl CompactThetaSketch {
             num_entries |= (entry_count_byte as usize) << ((i as usize) << 3);
         }
 
+        if theta == 0 || theta > MAX_THETA {
+            return Err(Error::deserial(format!(
+                "corrupted: theta must be in [1, {MAX_THETA}], got {theta}"
+            )));
+        }
+        if num_entries > 0 && !(1..=63).contains(&entry_bits) {
+            return Err(Error::deserial(format!(
+                "corrupted: entry_bits must be in [1, 63], got {entry_bits}"
+            )));
+        }
+        // the packed deltas must be present before space for the entries is allocated
+        let num_blocks = num_entries / BLOCK_WIDTH;
+        let num_tail = num_entries % BLOCK_WIDTH;
+        ensure_remaining(&cursor, num_blocks, entry_bits as usize, "delta_block")?;
+        ensure_remaining(
+            &cursor,
+            num_blocks * entry_bits as usize + (num_tail * entry_bits as usize).div_ceil(8),
+            1,
+            "delta_tail",
+        )?;
+
         // unpack blocks of BLOCK_WIDTH deltas
         let mut i = 0usize;
         let mut entries = vec![0u64; num_entries];
@@ -827,11 +872,15 @@ impl CompactThetaSketch {
         }
 
         // undo deltas
-        let mut previous = 0;
+        let mut previous = 0u64;
         for e in &mut entries {
-            *e += previous;
+            // a zero delta is a duplicate, an overflowing sum cannot be below theta
+            *e = match e.checked_add(previous) {
+                Some(sum) if *e != 0 => sum,
+                _ => return Err(Error::deserial("corrupted: invalid retained hash value")),
+            };
             previous = *e;
-            if *e == 0 || *e >= theta {
+            if *e >= theta {
                 return Err(Error::deserial("corrupted: invalid retained hash value"));
             }
         }
